@@ -1039,4 +1039,3 @@ func checkKeywordTables(c *Check) {
 	c.extra["keyword_map_keys"] = len(keys)
 	c.extra["token_types"] = len(consts)
 }
-
